@@ -1,6 +1,6 @@
 (* GENERATED from C05.v.in by tools/strlit.py — edit the .in file *)
 (* C05 — converting any supported document returns a result instead of raising. *)
-From Mammoth Require Import Api Dom ReaderTables ReaderSpec CrashFacts CrashCodes ConvertSpec ConvertTrace ParserSpec ParserFacts.
+From Mammoth Require Import Api Cli Dom ReaderTables ReaderSpec CrashFacts CrashCodes ConvertSpec ConvertTrace ParserSpec ParserFacts MiscSpec MiscFacts.
 Local Open Scope N_scope.
 
 (* Every Python exception site of the modelled pipeline is an explicit Crash value of the model.
@@ -42,6 +42,10 @@ Theorem C05_visit_total (o : copts) (cm : list comment) (e : delem) (hdr : bool)
   exists ns st', visit o cm e hdr st = Ok (ns, st').
 Proof. exact (visit_total o cm e hdr st). Qed.
 
+(* the markdown writer never fails, whatever forest it is given (its element and list-state stacks stay balanced) *)
+Theorem C05_markdown_writer_total (ns : list (node str)) : exists s, write_markdown ns = Ok s.
+Proof. exact (write_markdown_total ns). Qed.
+
 (* non-vacuity: the out-of-domain causes do crash the model (each hypothesis is needed) *)
 Example C05_unsupported_crashes :
   let doc body := mkSource [([119;111;114;100;47;100;111;99;117;109;101;110;116;46;120;109;108], PXml (XElem [119;58;100;111;99;117;109;101;110;116] [] [XElem [119;58;98;111;100;121] [] body]))] false [] in
@@ -57,3 +61,4 @@ Print Assumptions C05_extract_raw_text_failures.
 Print Assumptions C05_handlers_known.
 Print Assumptions C05_options_total.
 Print Assumptions C05_visit_total.
+Print Assumptions C05_markdown_writer_total.
